@@ -48,7 +48,7 @@ theorem gnext_no_publish (g : TopicSpec) (op : Op) (s' : St) (res : Res)
 
 /-- under the routing invariant and a reachable dispatcher, "in the topic list and alive" is
 "subscribed" in the sense of the API contract -/
-theorem routed_iff (s : St) (hri : RI s) (hd : dispAlive s = true) (t : Topic) (r : Nat) :
+theorem routed_iff (s : St) (hri : RI True s) (hd : dispAlive s = true) (t : Topic) (r : Nat) :
     ((t, r) ∈ s.regs ∧ isLive s.rxs r = true) ↔ subscribedTo s r t = true := by
   constructor
   · rintro ⟨hm, hl⟩
@@ -56,8 +56,8 @@ theorem routed_iff (s : St) (hri : RI s) (hd : dispAlive s = true) (t : Topic) (
     obtain ⟨x, hx⟩ : ∃ x, s.rxs[r]? = some x := ⟨s.rxs[r], List.getElem?_eq_getElem hlt⟩
     rw [isLive_of_get _ _ _ hx] at hl
     obtain ⟨_, b, c, _⟩ := hri.ok r x hx hl
-    obtain ⟨c1, c2⟩ := c hd t hm
-    simp [subscribedTo, hx, hl, b c2, c1]
+    obtain ⟨c1, c2⟩ := c trivial hd t hm
+    simp [subscribedTo, hx, hl, b trivial c2, c1]
   · intro hs
     unfold subscribedTo at hs
     cases hx : s.rxs[r]? with
@@ -74,16 +74,16 @@ theorem routed_iff (s : St) (hri : RI s) (hd : dispAlive s = true) (t : Topic) (
 
 structure EI (g : TopicSpec) : Prop where
   gi : GI g
-  ri : RI g.st
+  ri : RI True g.st
   exact : ∀ r, g.acc r = owed g.pubs r
 
 theorem EI_ginit (cap : Nat) (k : Kind) : EI (ginit cap k) :=
-  ⟨GI_ginit cap k, RI_init cap k, fun r => by simp [ginit, owed]⟩
+  ⟨GI_ginit cap k, RI_init cap k True, fun r => by simp [ginit, owed]⟩
 
 theorem EI_gstep (g : TopicSpec) (op : Op) (hop : ∀ r, op ≠ .rClose r) (hg : EI g) : EI (gstep g op).1 := by
   refine ⟨GI_gstep g op hg.gi, ?_, ?_⟩
-  · show RI (gnext g op (step g.st op).1 (step g.st op).2).st
-    rw [gnext_st]; exact RI_step g.st op hop hg.ri
+  · show RI True (gnext g op (step g.st op).1 (step g.st op).2).st
+    rw [gnext_st]; exact RI_step g.st op (fun _ => hop) hg.ri
   · show ∀ r, (gnext g op (step g.st op).1 (step g.st op).2).acc r = owed (gnext g op (step g.st op).1 (step g.st op).2).pubs r
     by_cases hpub : ∃ h t v, op = .send h t v ∧ (step g.st op).2 = .ok
     · obtain ⟨h, t, v, rfl, hok⟩ := hpub
